@@ -1,4 +1,5 @@
 mod c05;
+mod c13;
 mod c15;
 mod probe;
 mod rng;
@@ -14,6 +15,7 @@ fn main() {
     let args = util::parse_args(&argv[2..]);
     match argv[1].as_str() {
         "c05" => c05::main(&args),
+        "c13" => c13::main(&args),
         "c15" => c15::main(&args),
         "probe" => probe::main(&args),
         other => {
